@@ -49,10 +49,11 @@ def content_bytes(rng):
 class DocGen:
     """a document with a page tree, content streams, resources (own / inherited / indirect),
     annotations, unreachable objects, indirect-reference objects; mostly well-formed"""
-    def __init__(self, rng, allow_filters=False, content_heavy=False):
+    def __init__(self, rng, allow_filters=False, content_heavy=False, res_shared=False):
         self.rng = rng
         self.allow_filters = allow_filters
         self.content_heavy = content_heavy     # most pages get a Contents behind references / shared with another page
+        self.res_shared = res_shared           # most pages have no Resources of their own, most Pages nodes an INDIRECT one
         self.next = rng.choice([1, 1, 1, 3, 10])
         self.objects = {}          # id -> obj
         self.pages = []            # page ids in DFS order
@@ -165,6 +166,8 @@ class DocGen:
             cv = 'none'
         # Resources
         r = rng.random()
+        if self.res_shared and rng.random() < 0.75:
+            r = 0.9                       # inherits
         if r < 0.4:
             rv = 'own'; ent.append((b'Resources', self.resources()))
         elif r < 0.62:
@@ -219,7 +222,14 @@ class DocGen:
         ent = [(b'Type', name('Pages')), (b'Kids', arr(*kids)), (b'Count', cnt)]
         if parent:
             ent.append((b'Parent', ref(parent)))
-        if rng.random() < (0.6 if parent is None else 0.3):
+        if self.res_shared:
+            # seeded defect C11/p3: the inherited dictionary is an object of its own (also behind a reference object)
+            if parent is None or rng.random() < 0.4:
+                res = self.resources()
+                r = rng.random()
+                rid = self.put(res)
+                ent.append((b'Resources', res if r < 0.12 else ref(self.put(ref(rid))) if r < 0.25 else ref(rid)))
+        elif rng.random() < (0.6 if parent is None else 0.3):
             res = self.resources()
             ent.append((b'Resources', ref(self.put(res)) if rng.random() < 0.3 else res))
         rng.shuffle(ent)
@@ -543,6 +553,32 @@ class ProgGen:
             ops.append(self.one(['cpc', 'cpc', 'cpc', 'apc', 'apc', 'atpc', 'ccs', 'content'] if rng.random() < 0.8 else ALL_OPS))
         return ops
 
+    def resource_program(self):
+        """seeded defect C11/p3: add_xobject / add_graphics_state with the SAME resource name on different sibling pages that
+        have no Resources of their own (the ancestor's is an indirect object), get_or_create_resources and reads between
+        them, sometimes a prune at the end (an object only the first page's entry named must survive)"""
+        rng = self.rng
+        g = self.g
+        ops = [self.one(ALL_OPS) for _ in range(rng.choice([0, 0, 0, 1, 2]))]
+        pages = list(g.pages) or [self.any_id()]
+        for _ in range(rng.choice([1, 1, 2])):
+            kind = rng.choice(['addx', 'addx', 'addgs'])
+            nm = rng.choice([b'Im1', b'Im9', b'X'] if kind == 'addx' else [b'GS0', b'GS7', b'X'])
+            order = rng.sample(pages, min(len(pages), rng.choice([2, 2, 3, 4])))
+            if rng.random() < 0.3:
+                order.append(order[0])
+            for pgid in order:
+                if rng.random() < 0.15:
+                    ops.append(L('gocr', OID(*rng.choice(pages))))
+                x = rng.choice(g.xobjs) if g.xobjs and rng.random() < 0.5 else self.any_id()
+                ops.append(L(kind, OID(*pgid), xb(nm), OID(*x)))
+                if rng.random() < 0.15:
+                    ops.append(self.one(['content', 'gocr', 'addx', 'addgs', 'add', 'apc']))
+        if rng.random() < 0.35:
+            ops.append(L('prune'))
+            ops.append(self.one(['content', 'gocr', 'addx', 'addgs']))
+        return ops
+
     def strip_program(self):
         """deletions of objects that the dictionary of a stream names directly (delete_object on the target, delete_pages on a
         page), early in the program while the holder is still reachable, interleaved with a few other operations"""
@@ -570,8 +606,10 @@ def orc_sx(tbl):
 
 
 def gen_program(rng, kinds, maxlen=40):
-    g = DocGen(rng, allow_filters=True, content_heavy=(kinds == 'content')).build(p_held=0.7 if kinds == 'strip' else None)
+    g = DocGen(rng, allow_filters=True, content_heavy=(kinds == 'content'), res_shared=(kinds == 'resources')).build(p_held=0.7 if kinds == 'strip' else None)
     pg = ProgGen(rng, g)
+    if kinds == 'resources':
+        return g, pg.resource_program()
     if kinds == 'outline':
         return g, pg.outline_program()
     if kinds == 'content':
@@ -610,7 +648,7 @@ def gen_cases(rng, tier):
     progs = []
     for _ in range(n):
         r = rng.random()
-        kinds = STAGE1 if r < 0.2 else 'outline' if r < 0.35 else 'strip' if r < 0.47 else 'content' if r < 0.59 else ALL_OPS
+        kinds = STAGE1 if r < 0.2 else 'outline' if r < 0.35 else 'strip' if r < 0.47 else 'content' if r < 0.59 else 'resources' if r < 0.69 else ALL_OPS
         progs.append(gen_program(rng, kinds) + (kinds,))
     z = oracle_answers(set().union(*[g.plains for g, _, _ in progs]))
     cases = []
@@ -622,7 +660,7 @@ def gen_cases(rng, tier):
                 tbl.append(('f', z[p], p))
         for c, p in sorted(g.inflate.items()):
             tbl.append(('f', c, p))
-        cases.append((case_line(g.sx(), ops, tbl), {'kind': 'prog-strip' if kinds == 'strip' else 'prog-outline' if kinds == 'outline' else 'prog-content' if kinds == 'content' else 'prog',
+        cases.append((case_line(g.sx(), ops, tbl), {'kind': 'prog-' + kinds if isinstance(kinds, str) else 'prog',
                                                     'nontrivial': len(ops) >= 2 or kinds in ('strip', 'content')}))
     return cases
 
@@ -713,7 +751,7 @@ SPEC = {
             'an indirect Length -- to pages, annotations, fonts, other streams; these targets are preferred by delete_object / '
             'delete_pages steps, and 12 % of the programs are strip programs: such deletions first, while the holder is reachable; 12 % are content '
             'programs: content edits on documents whose Contents entries are indirect arrays, references to references, arrays holding a stream '
-            'another page shows; 10 % of the Pages nodes have an indirect Count, 6 % of the pages sit behind a reference object); '
+            'another page shows; 10 % are resource programs: add_xobject / add_graphics_state with the same name on sibling pages that inherit an INDIRECT Resources dictionary; 10 % of the Pages nodes have an indirect Count, 6 % of the pages sit behind a reference object); '
             'after every delete_object / delete_pages the verdict "no reference to a deleted id survives in anything a traversal '
             'from the trailer reaches" is evaluated; after every step the canonical dump (objects, trailer, max_id) and the returned value are compared '
             'with the model and the invariants are evaluated on the implementation; non-trivial = at least 2 operations; '
